@@ -161,12 +161,15 @@ class Style:
         if self.comments and r.random() < 0.3:
             k = r.choice(["c", "h", "s"])
             self.used.add("comment-" + k)
-            word = r.choice(["x", "a comment", "1 2 add", "let", "if then", "%s", ""])
+            word = r.choice(["x", "a comment", "1 2 add", "let", "if then", "%s", "", "==========", "////////", "..::..", "-*-", "<=>", "\\", "!", "?", "*/", '"', "[", "%("])
+            tight = r.random() < 0.4          # no blank between the comment marker and its text
             if k == "c":
-                return r.choice([" ", "\n", "\t"]) + "/* " + word + " */" + r.choice([" ", "\n", " \n "])
+                if "*/" in word:
+                    word = "* /"
+                return r.choice([" ", "\n", "\t"]) + ("/*" + word + "*/" if tight else "/* " + word + " */") + r.choice([" ", "\n", " \n "])
             if k == "h":
-                return " # " + word + "\n"
-            return " // " + word + "\n"
+                return (" #" if tight else " # ") + word + "\n"
+            return (" //" if tight else " // ") + word + "\n"
         if self.ws and r.random() < 0.5:
             self.used.add("whitespace")
             return r.choice(["  ", "\t", "\n", " \n ", "\n\n", " \t ", "   "])
